@@ -42,3 +42,45 @@ def damage(rng, cab):
     else:
         off = rng.randrange(0, len(b) - 4); struct.pack_into("<I", b, off, rng.choice([0, 1, 0x7FFFFFFF, 0xFFFFFFFF, len(b), len(b) - 1]))
     return bytes(b)
+
+# ---------------------------------------------------------------- sets (Model/CabSet.v)
+def set_scn(files, salvage, fixmszip, bufsize, ops):
+    """files: list of cabinet byte strings; ops: list of ('o', k) | ('m', l, r, kind) | ('l', c) | ('x', c, idx)   (l / r may be None)"""
+    sc = scenario.Scn()
+    for k, f in enumerate(files): sc.file("in%d.cab" % k, f)
+    sc.op("cab_new").op("cab_param", 3, 1 if salvage else 0).op("cab_param", 1, 1 if fixmszip else 0).op("cab_param", 2, bufsize)
+    nx = 0
+    for o in ops:
+        if o[0] == "o": sc.op("cab_open", "c%d" % o[1], "in%d.cab" % o[1])
+        elif o[0] == "m":
+            l, r = o[1], o[2]; a = "c%d" % l if l is not None else "null"; b = "c%d" % r if r is not None else "null"
+            if o[3] == "append": sc.op("cab_append", a, b) if l is not None else sc.op("cab_prepend", b, a)
+            else: sc.op("cab_prepend", b, a) if r is not None else sc.op("cab_append", a, b)
+        elif o[0] == "l": sc.op("cab_list", "c%d" % o[1])
+        else: sc.op("cab_extract", "c%d" % o[1], o[2], "o%d" % nx); nx += 1
+    return sc
+def set_model_line(files, salvage, fixmszip, bufsize, ops):
+    def enc(o):
+        if o[0] == "o": return "o%d" % o[1]
+        if o[0] == "m": return "m%s:%s" % ("-" if o[1] is None else o[1], "-" if o[2] is None else o[2])
+        if o[0] == "l": return "l%d" % o[1]
+        return "x%d:%d" % (o[1], o[2])
+    return "%d %d %d %s %s" % (1 if salvage else 0, 1 if fixmszip else 0, bufsize, ",".join(enc(o) for o in ops), " ".join(vlib.hexs(f) for f in files))
+def set_c_canonical(t):
+    out = ""
+    for x in t.ops:
+        if x.name == "cab_open": out += "#O %s" % x.kv.get("err")
+        elif x.name in ("cab_append", "cab_prepend"): out += "#M %s" % x.kv.get("st")
+        elif x.name == "cab_list":
+            hl = [l for l in x.lines if l.startswith("cab 0 ")]
+            if not hl: out += "#-"; continue
+            kv = dict(y.split("=", 1) for y in hl[0].split()[2:]); out += "#L %s %s" % (kv["haspc"], kv["hasnc"])
+            for l in x.lines:
+                if l.startswith(" folder "):
+                    kv = dict(y.split("=", 1) for y in l.split()[1:]); out += ";D %s %s" % (kv["comp"], kv["blocks"])
+                elif l.startswith(" file "):
+                    kv = dict(y.split("=", 1) for y in l.split()[1:]); out += ";F %s %s %s %s %s" % (kv["name"], kv["len"], kv["attr"], kv["fol"], kv["off"])
+        elif x.name == "cab_extract":
+            if x.kv.get("nofile"): out += "#-"
+            else: out += "#X %s %s" % (x.kv.get("st"), x.out if x.out not in (None, "absent") else "")
+    return out
